@@ -280,7 +280,8 @@ def gen_interconnect(rs):
             cursor += size
         slaves.append((cursor, size, mj))
         for e in mj["entries"]:
-            entries.append(dict(e, word=e["word"] + cursor // 4))
+            # (an AddrRange hook that receives the address itself sees the address inside the slave's own window)
+            entries.append(dict(e, word=e["word"] + cursor // 4, local_word=e["word"]))
         cursor += size
     order = rs.sample(list(range(len(slaves))), len(slaves))
     return {"words": cursor // 4, "entries": entries, "slaves": slaves, "connect_order": order}
@@ -326,7 +327,7 @@ class Model:
                 self.words[e["word"]] = {"kind": "output", "wmask": ((1 << e["w"]) - 1) << e["o"], "val": 0, "w": e["w"], "o": e["o"]}
             elif k == "range":
                 for i in range(e["n"]):
-                    self.words[e["word"] + i] = {"kind": "range", "wmask": 0, "val": 4 * i if e["relative"] else 4 * (e["word"] + i)}
+                    self.words[e["word"] + i] = {"kind": "range", "wmask": 0, "val": 4 * i if e["relative"] else 4 * (e.get("local_word", e["word"]) + i)}
         self.reset_state = {w: dict(d) for w, d in self.words.items()}
 
     def reset(self):
